@@ -56,7 +56,7 @@ def build(target_dir, fs, log_path, extra_env=None):
     return time.time() - t0
 
 
-CHECK_RE = re.compile(r"^Check (\d+): (\S+)\s*$")
+CHECK_RE = re.compile(r"^Check (\d+): (.+?)\s*$")
 
 
 def parse_output(out):
